@@ -163,7 +163,8 @@ def run(chk, repo: Repo):
               handouts=handout_methods(repo, [(f"{OP}:Operator", "get_matrix")]))
     chk.rule("C20-R1", "precision matrix = (D.T @ D) of the same stored difference operator", floor=1)
     chk.rule("C20-R2", "GMRF/LMRF/CMRF densities apply the operator to x minus the location/mean", floor=4)
-    chk.rule("C20-R3", "boundary-condition literals: GMRF ⊆ both operator classes; sampling branch per literal; LMRF/CMRF forward bc_type", floor=4)
+    chk.rule("C20-R3", "boundary-condition literals: GMRF ⊆ both operator classes; sampling branch per literal; LMRF/CMRF forward bc_type; "
+                       "number of rows of each difference operator per (order, boundary condition) as documented (read off the slices of the stencil)", floor=4)
     chk.rule("C20-R4", "Cholesky/logdet/rank/sqrtprec derive from the field's own precision operator; rank bounded by operator rows and order-aware", floor=4)
     chk.rule("C20-R5", "1-D scaling dx**order; 2-D Kronecker stacking identical in both operator classes", floor=3)
     chk.rule("C20-R6", "lazy caches in the MRF/operator classes are reset by every writer of their inputs", floor=0)
